@@ -92,6 +92,16 @@ func c13DateClauses(recs []sm.Record) []c13Clause {
 			c13Clause{kind: "date", args: []string{"--before", lit(d)}, recOK: between(-inf, d-1)},
 		)
 	}
+	// the two ends of the representable calendar as clause dates (nothing lies after the last / before the first date)
+	for _, d := range []int{sm.MinDay, sm.MaxDay} {
+		out = append(out,
+			c13Clause{kind: "date", args: []string{"--date", lit(d)}, recOK: between(d, d)},
+			c13Clause{kind: "date", args: []string{"--since", lit(d)}, recOK: between(d, inf)},
+			c13Clause{kind: "date", args: []string{"--until", lit(d)}, recOK: between(-inf, d)},
+			c13Clause{kind: "date", args: []string{"--after", lit(d)}, recOK: between(d+1, inf)},
+			c13Clause{kind: "date", args: []string{"--before", lit(d)}, recOK: between(-inf, d-1)},
+		)
+	}
 	for i, a := range days {
 		for _, b := range days[i:] {
 			if (a+b)%3 != 0 {
